@@ -41,7 +41,7 @@ Section Theorems.
     intros rootMoves ScoreOK Hne Hfresh.
     assert (Hrm : rmOK P mk legalAt root (movesOf rootMoves) ScoreOK rootMoves).
     { split; [apply Permutation_refl|]. eapply Forall_impl; [|exact Hfresh].
-      intros x [_ [_ [_ [Hd _]]]]. left. lia. }
+      intros x [_ [_ [Hd _]]]. left. lia. }
     assert (Hb : In (mi_move (getMI rootMoves 0)) (movesOf rootMoves)).
     { rewrite getMI_move. apply nth_In. unfold movesOf; rewrite map_length.
       destruct rootMoves; [congruence | cbn; lia]. }
